@@ -8,7 +8,7 @@ from __future__ import annotations
 
 from ..core import Ctx, HarnessError, Result
 from ..sched import catalogue as cat
-from ..sched.catalogue import spec_from
+from ..sched.catalogue import A, AND, E, spec_from
 from ..sched.mon_c25 import COUNTS, StoreReflectsPool
 from ..sched.mon_c27 import COUNTS as COUNTS27, ReloadProfile, definitions
 from ..sched.run import explore_all, replay_violation, result_from
@@ -66,6 +66,26 @@ def catalogue(tier: str):
     add('chain2-f2-holdcp1-release', 'chain2', 2, options={'holdcp': '1'},
         helpers=[('release', {'tasks': ['2/a']}),
                  ('release_hold_point', {})], helper_budget=1)
+    # a group trigger of tasks outside the n=1 window: members enter the
+    # window as ghosts and join the pool within one data-store batch
+    out.append(dict(spec_from(
+        [('P1', [E(A('a'), 'b'), E(A('b'), 'c'), E(A('a'), 'e'),
+                 E(AND(A('c'), A('e')), 'd')])], 1, 1,
+        name='kite-f1-grouptrigger'),
+        helpers=[('force_trigger_tasks',
+                  {'tasks': ['1/c', '1/d'], 'flow': ['all']}),
+                 ('force_trigger_tasks',
+                  {'tasks': ['1/d'], 'flow': ['all']})],
+        helper_budget=1, helper_when='no-live-member'))
+    # ... and of a member whose job is live (recorded finding: the data
+    # store node of the respawned member shows the old job's kill result)
+    out.append(dict(spec_from(
+        [('P1', [E(A('a'), 'c'), E(A('a'), 'e'),
+                 E(AND(A('c'), A('e')), 'd')])], 1, 1,
+        name='kite-f1-grouptrigger-live'),
+        helpers=[('force_trigger_tasks',
+                  {'tasks': ['1/c', '1/d'], 'flow': ['all']})],
+        helper_budget=1, helper_when='live-member'))
     # one reload
     add('chain2-f1-reload', 'chain2', 1, reloads=1, drop_tasks=['a', 'b'])
     add('prev-f2-ra0-reload', 'prev', 2, reloads=1,
@@ -132,7 +152,7 @@ def run(ctx: Ctx) -> Result:
     COUNTS27.collect(ctx.scratch)
     st = explore_all(
         ctx, [make_factory(s, ctx.tier) for s in specs],
-        max_states=ctx.pick(6000, 60000), max_seconds=ctx.pick(110, 2400))
+        max_states=ctx.pick(6000, 60000), max_seconds=ctx.pick(240, 2400))
     counts = COUNTS.collect(ctx.scratch)
     COUNTS27.collect(ctx.scratch)
     if not st.error and not st.violations:
